@@ -642,6 +642,13 @@ func (env *specEnv) call(n *SCall) (TV, error) {
 			return TV{}, err
 		}
 		return TV{fmt.Sprintf("(= (i-tag %s) %d)", a.T, S.Tag(T)), "Bool", nil}, nil
+	case "regexp_compiles":
+		a, err := env.Term(n.Args[0])
+		if err != nil {
+			return TV{}, err
+		}
+		vc.declFun("regexp_compiles", "(Str) Bool")
+		return TV{fmt.Sprintf("(regexp_compiles %s)", env.view(a).T), "Bool", nil}, nil
 	case "streq", "strord":
 		a, err := env.Term(n.Args[0])
 		if err != nil {
